@@ -3,7 +3,7 @@
 # The change is applied in a scratch git worktree of /repo HEAD (VERIF_REPO points the check at it); /repo is untouched.
 # usage: tools/matrix.sh [ids...]    output: one line per (seed, check)
 cd "$(dirname "$0")/.."
-WT=/tmp/wt-matrix
+WT=${MATRIX_WT:-/tmp/wt-matrix}
 git -C /repo worktree remove --force $WT 2>/dev/null
 git -C /repo worktree add -q --detach $WT HEAD || exit 2
 trap 'git -C /repo worktree remove --force $WT' EXIT
